@@ -28,7 +28,10 @@ use std::{
 };
 
 use libp2p_identity::PeerId;
+#[cfg(not(libp2p_verif))]
 use web_time::Instant;
+#[cfg(libp2p_verif)]
+use crate::verif::Instant;
 
 use crate::topic::TopicHash;
 
